@@ -24,24 +24,46 @@ type pointOp struct {
 type bigInt = gen.SC
 
 var pointOps = []pointOp{
-	{name: "Add", npts: 2, run: func(v *edwards25519.Point, p []*edwards25519.Point, s []*edwards25519.Scalar) any { return v.Add(p[0], p[1]) },
+	{name: "Add", npts: 2, run: func(v *edwards25519.Point, p []*edwards25519.Point, s []*edwards25519.Scalar) any {
+		return v.Add(p[0], p[1])
+	},
 		model: func(p []ref.Pt, k []*bigInt) ref.Pt { return ref.Add(p[0], p[1]) }},
-	{name: "Subtract", npts: 2, run: func(v *edwards25519.Point, p []*edwards25519.Point, s []*edwards25519.Scalar) any { return v.Subtract(p[0], p[1]) },
+	{name: "Subtract", npts: 2, run: func(v *edwards25519.Point, p []*edwards25519.Point, s []*edwards25519.Scalar) any {
+		return v.Subtract(p[0], p[1])
+	},
 		model: func(p []ref.Pt, k []*bigInt) ref.Pt { return ref.Sub(p[0], p[1]) }},
-	{name: "Negate", npts: 1, run: func(v *edwards25519.Point, p []*edwards25519.Point, s []*edwards25519.Scalar) any { return v.Negate(p[0]) },
+	{name: "Negate", npts: 1, run: func(v *edwards25519.Point, p []*edwards25519.Point, s []*edwards25519.Scalar) any {
+		return v.Negate(p[0])
+	},
 		model: func(p []ref.Pt, k []*bigInt) ref.Pt { return ref.Neg(p[0]) }},
-	{name: "MultByCofactor", npts: 1, run: func(v *edwards25519.Point, p []*edwards25519.Point, s []*edwards25519.Scalar) any { return v.MultByCofactor(p[0]) },
-		model: func(p []ref.Pt, k []*bigInt) ref.Pt { return ref.Add(ref.Add(ref.Add(p[0], p[0]), ref.Add(p[0], p[0])), ref.Add(ref.Add(p[0], p[0]), ref.Add(p[0], p[0]))) }},
-	{name: "ScalarMult", npts: 1, nsc: 1, run: func(v *edwards25519.Point, p []*edwards25519.Point, s []*edwards25519.Scalar) any { return v.ScalarMult(s[0], p[0]) },
+	{name: "MultByCofactor", npts: 1, run: func(v *edwards25519.Point, p []*edwards25519.Point, s []*edwards25519.Scalar) any {
+		return v.MultByCofactor(p[0])
+	},
+		model: func(p []ref.Pt, k []*bigInt) ref.Pt {
+			return ref.Add(ref.Add(ref.Add(p[0], p[0]), ref.Add(p[0], p[0])), ref.Add(ref.Add(p[0], p[0]), ref.Add(p[0], p[0])))
+		}},
+	{name: "ScalarMult", npts: 1, nsc: 1, run: func(v *edwards25519.Point, p []*edwards25519.Point, s []*edwards25519.Scalar) any {
+		return v.ScalarMult(s[0], p[0])
+	},
 		model: func(p []ref.Pt, k []*bigInt) ref.Pt { return ref.Mul(k[0].K, p[0]) }},
-	{name: "ScalarBaseMult", npts: 0, nsc: 1, run: func(v *edwards25519.Point, p []*edwards25519.Point, s []*edwards25519.Scalar) any { return v.ScalarBaseMult(s[0]) },
+	{name: "ScalarBaseMult", npts: 0, nsc: 1, run: func(v *edwards25519.Point, p []*edwards25519.Point, s []*edwards25519.Scalar) any {
+		return v.ScalarBaseMult(s[0])
+	},
 		model: func(p []ref.Pt, k []*bigInt) ref.Pt { return ref.Mul(k[0].K, ref.Base()) }},
 	{name: "VarTimeDoubleScalarBaseMult", npts: 1, nsc: 2, run: func(v *edwards25519.Point, p []*edwards25519.Point, s []*edwards25519.Scalar) any {
 		return v.VarTimeDoubleScalarBaseMult(s[0], p[0], s[1])
-	}, model: func(p []ref.Pt, k []*bigInt) ref.Pt { return ref.Add(ref.Mul(k[0].K, p[0]), ref.Mul(k[1].K, ref.Base())) }},
-	{name: "Equal", npts: 2, recvIsInput: true, run: func(v *edwards25519.Point, p []*edwards25519.Point, s []*edwards25519.Scalar) any { return p[0].Equal(p[1]) }},
-	{name: "Bytes", npts: 1, recvIsInput: true, run: func(v *edwards25519.Point, p []*edwards25519.Point, s []*edwards25519.Scalar) any { return p[0].Bytes() }},
-	{name: "BytesMontgomery", npts: 1, recvIsInput: true, run: func(v *edwards25519.Point, p []*edwards25519.Point, s []*edwards25519.Scalar) any { return p[0].BytesMontgomery() }},
+	}, model: func(p []ref.Pt, k []*bigInt) ref.Pt {
+		return ref.Add(ref.Mul(k[0].K, p[0]), ref.Mul(k[1].K, ref.Base()))
+	}},
+	{name: "Equal", npts: 2, recvIsInput: true, run: func(v *edwards25519.Point, p []*edwards25519.Point, s []*edwards25519.Scalar) any {
+		return p[0].Equal(p[1])
+	}},
+	{name: "Bytes", npts: 1, recvIsInput: true, run: func(v *edwards25519.Point, p []*edwards25519.Point, s []*edwards25519.Scalar) any {
+		return p[0].Bytes()
+	}},
+	{name: "BytesMontgomery", npts: 1, recvIsInput: true, run: func(v *edwards25519.Point, p []*edwards25519.Point, s []*edwards25519.Scalar) any {
+		return p[0].BytesMontgomery()
+	}},
 	{name: "ExtendedCoordinates", npts: 1, recvIsInput: true, run: func(v *edwards25519.Point, p []*edwards25519.Point, s []*edwards25519.Scalar) any {
 		X, _, _, _ := p[0].ExtendedCoordinates()
 		return X
